@@ -30,6 +30,7 @@ CONSTANTS Contexts,   \* set of sequences of statement kinds
           Users,      \* user spellings
           Pieces,     \* names of password pieces
           PwMax,      \* maximal number of pieces of a password (<= 4)
+          PwQuote,    \* the quote the password literal is written in: "'" - or, speculatively (the present parser rejects it), "\""
           Design      \* "current": the two patterns of the unchanged tree; "fix": the candidate repair
 
 VARIABLES segs, slots, kcase, inpw, cur, pwvals, ctx, done,
@@ -71,6 +72,9 @@ UsersSpec == {"u", "\"a\"\"b\"", "\"\"\"a\""}
 PiecesSpec == {"M", "qq", "sq"}
 UsersAll  == {"u", "bob_1", "\"u\"", "\"with password\"", "\"pass'word\"", "\"a b\"", "\"a\\\"b\"",
               "\"password for\"", "\"with password x\"", "\"\""} \cup UsersEq \cup UsersCase
+QuoteSingle == "'"
+QuoteDouble == "\""
+PiecesDq == {"M", "sp", "eq", "semi"}
 UsersSome == {"u", "\"a=b\"", "\"with password\"", "\"pass'word\""}
 
 CasesAll == {"u", "l", "m"}
@@ -156,7 +160,7 @@ GapSet(w) == CASE w = "og" -> OGaps [] w = "kg" -> KGaps [] w = "lg" -> LGaps []
                [] w = "ag" -> AGaps [] w = "s1" -> S1Gaps [] w = "s2" -> S2Gaps
 
 Seg(k, t) == [kind |-> k, text |-> t]
-PwText(ps) == QUOTE1 \o Join([i \in 1..Len(ps) |-> IF ps[i] = "M" THEN MarkerSeq[i] ELSE PieceTab[ps[i]].t]) \o QUOTE1
+PwText(ps) == PwQuote \o Join([i \in 1..Len(ps) |-> IF ps[i] = "M" THEN MarkerSeq[i] ELSE PieceTab[ps[i]].t]) \o PwQuote
 PwVal(ps)  == Join([i \in 1..Len(ps) |-> IF ps[i] = "M" THEN MarkerSeq[i] ELSE PieceTab[ps[i]].v])
 
 \* ---- what the case carries ----
